@@ -124,6 +124,13 @@ def evaluate(i, scn):
             structure(ck, comps, pred, "components:model.components()")
             wd = LY.user_dims(pred["scoreDims"])
             ck.d(set(scores.dims) == wd, "C02", "C02_OutputDims", f"model.scores() dims {scores.dims}, expected {sorted(wd)}")
+            # C04 on every structure: projecting the training data reproduces the scores (values, dims, labels)
+            try:
+                tr = m.transform(data)
+                why = same(tr, scores, rtol=1e-8, what="transform(training data) vs scores")
+                ck.m(why is None, "C04", "C04_TrainingTransformIsScores", f"{lay['kind']} layout: {why}")
+            except Exception as e:  # noqa
+                ck.d(False, "C04", "C04_TrainingTransformIsScores", f"transform(training data) raised {type(e).__name__}: {str(e)[:160]}")
             rec = m.inverse_transform(scores)
             if structure(ck, rec, pred, "reconstruction:model.inverse_transform(scores)"):
                 why = same(rec, data, rtol=1e-7, what="reconstruction")
